@@ -11,8 +11,17 @@ the source (`PedVerif.Gen.Subproc.prog`): the order of `Pipe`, `start`, `tx.clos
   reader registration, the `asyncio.Event`, the child table entry;
 * global machine (any number of invocations): a list of local states + the event loop's selector map **keyed by fd
   number** (environment model: `selectors.EpollSelector` — closing an fd silently drops the kernel registration but
-  leaves the map entry; `add_reader` on an fd that still has an entry only replaces the callback) + a lowest-free fd
-  allocator.  A step is a step of one component (parent i, child i, one reader callback).
+  leaves the map entry; `add_reader` on an fd that still has an entry only replaces the callback).  A step is a step of one
+  component (parent i, child i, one reader callback).
+* **descriptor numbers are the environment's choice**: `Pipe()` gets ANY two numbers that are not in use (`GStep.parent i r w`) —
+  the process may hold any other descriptors open (files, sockets, the pipes of hundreds of pending invocations), so the numbers may
+  be arbitrarily high, in particular ≥ FD_SETSIZE (`St.rxHigh`), where `select()` no longer works.  The deterministic scheduler
+  that predicts a concrete scenario uses the kernel's rule — the lowest number that is free — above the `Sched.held` descriptors
+  the surrounding program holds open when the invocation is made.
+* the call: `Call` says whether the caller's arguments fit what the callable really accepts and whether they fit what
+  `inspect.signature` reports about it (the two differ for `functools.wraps` decorators that accept other arguments than the
+  function they wrap, and for callables with a `__signature__`); the wrapper and `calculate_in_subprocess` pass the callee and
+  the arguments on untouched, so only the former matters (`effective`).
 -/
 namespace PedVerif.Subproc
 open PedVerif.Gen.Subproc
@@ -64,25 +73,76 @@ def childBehD (daemon : Bool) : Callee → Beh
 /-- … with the `daemon` flag the translator read off the `Process(..)` call -/
 def childBeh (c : Callee) : Beh := childBehD processDaemon c
 
+/-! ## the call -/
+
+/-- the caller's `(*args, **kwargs)` against the callable handed to `in_subprocess` / `calculate_in_subprocess` -/
+structure Call where
+  /-- the callable accepts the arguments: `fun(*args, **kwargs)` enters the function -/
+  fits : Bool
+  /-- `inspect.signature(fun).bind(*args, **kwargs)` succeeds.  Independent of `fits`: `inspect.signature` follows `__wrapped__` and
+      honours `__signature__` — a `functools.wraps` decorator that renames keywords, consumes an extra argument or supplies one
+      itself accepts calls the reported signature rejects, and the other way round -/
+  sigFits : Bool
+deriving DecidableEq, Repr
+
+/-- what runs in the child for a call: the wrapper passes `(func, *args, **kwargs)` on to `calculate_in_subprocess`, that one to
+    `Process(target=_inner, args=(tx, func, *args), kwargs=kwargs)`, and `_inner` calls `fun(*a, **kw_args)` — nothing on the way looks at
+    the callee or the arguments (generated fact `calleeTouchedInParent = []`).  So a call that fits behaves as the callee does, and one
+    that does not fit raises the TypeError of the call (id `e`) inside the child, whatever introspection says. -/
+def effective (k : Call) (c : Callee) (e : Nat) : Callee := if k.fits then c else .raiseExc e
+
+/-- … as far as the translator's facts about the argument path go: `viaWrapper` — the invocation is made through the `@in_subprocess`
+    wrapper (`wrapperForwards`: its body is `return await calculate_in_subprocess(func, *args, **kwargs)`), `processArgsForwarded` —
+    `Process(target=_inner, args=(tx, func, *args), kwargs=kwargs)`, `asyncCallee` — the callee is a coroutine function
+    (`innerRunsCoroutines`: `_inner` runs it to its end in an event loop of its own).  Where the callee or the arguments are not passed
+    on like this, the child runs SOMETHING ELSE than the caller's call (`.unpicklable`: `_inner` would send a coroutine object); the
+    theorems about the result rest on the three facts being true. -/
+def childRuns (viaWrapper asyncCallee : Bool) (k : Call) (c : Callee) (e : Nat) : Callee :=
+  if !processArgsForwarded || (viaWrapper && !(wrapperForwards && wrapperIsAsync)) then .raiseExc e
+  else if asyncCallee && !innerRunsCoroutines then .unpicklable
+  else effective k c e
+
+/-- an invocation as the caller makes it -/
+structure Invocation where
+  viaWrapper : Bool      -- through the `@in_subprocess` wrapper (else: `calculate_in_subprocess` called directly)
+  asyncCallee : Bool     -- the callee is a coroutine function
+  call : Call
+  callee : Callee        -- what the callable does once it is entered
+  big : Bool             -- its result is larger than the pipe capacity
+deriving Repr
+
+def Invocation.runs (x : Invocation) (e : Nat) : Callee := childRuns x.viaWrapper x.asyncCallee x.call x.callee e
+
 /-! ## local state -/
 
 inductive CPc where
   | notStarted | running | sending | sent | exited
 deriving DecidableEq, Repr
 
+/-- WHICH object a message carries / a variable holds: the object the callee produced in the child (the value it returned, the
+    exception it raised) — or anything else.  The child puts `own` into the pipe, `recv` copies what it finds there into `result`, and
+    the caller is handed whatever `result` holds: "exactly what the function returns" is the statement that this token arrives. -/
+inductive Obj where
+  | own | other
+deriving DecidableEq, Repr
+
 /-- contents of the pipe: nothing, the beginning of a message larger than the pipe capacity (the writer is blocked),
     a complete message.  The flag says whether it is a `SubprocessError`. -/
 inductive Buf where
-  | empty | partialMsg (isErr : Bool) | full (isErr : Bool)
+  | empty | partialMsg (isErr : Bool) (obj : Obj) | full (isErr : Bool) (obj : Obj)
 deriving DecidableEq, Repr
 
 /-- the parent's `result` variable -/
 inductive Res where
-  | unset | ok | err | cpe | foreign
+  | unset
+  | ok (obj : Obj)       -- a plain message was received: `result` is the object it carried
+  | err (obj : Obj)      -- a `SubprocessError` was received: `result.exception` is the object it carried
+  | cpe | foreign
 deriving DecidableEq, Repr
 
 inductive Exc where
   | eof | err
+  | cancel     -- asyncio.CancelledError, raised at the `await` when the awaiting task is cancelled (task.cancel(), wait_for timeout, …)
 deriving DecidableEq, Repr
 
 /-- how the awaiting caller sees the invocation end -/
@@ -93,6 +153,7 @@ inductive Outcome where
   | raisedCPE        -- raises ChildProcessError
   | raisedEof        -- EOFError escapes
   | raisedErr        -- another error escapes (OSError "got end of file during message", closed handle, …)
+  | cancelled        -- the CancelledError leaves the coroutine: the awaiting task was cancelled / timed out
 deriving DecidableEq, Repr
 
 structure St where
@@ -109,18 +170,29 @@ structure St where
   reader : Bool            -- the selector map has an entry for rx with this invocation's `event.set`
   event : Bool
   reaped : Bool            -- `process.join()` returned
+  rxHigh : Bool            -- the descriptor number of the read end is ≥ FD_SETSIZE (set when the pipe is made; the environment's choice)
+  cancelled : Bool         -- the environment has cancelled the awaiting task (a CancelledError was raised at the `await`)
+  foreignTx : Bool         -- the child of ANOTHER invocation holds a copy of the write end (it was forked while this invocation's
+                           -- write end was open in the parent): no EOF while that child lives
 deriving DecidableEq, Repr
 
 def St.init : St :=
   { pc := 0, parked := false, res := .unset, exc := none, out := none, cpc := .notStarted, buf := .empty,
-    parentTx := false, childTx := false, rxOpen := false, reader := false, event := false, reaped := false }
+    parentTx := false, childTx := false, rxOpen := false, reader := false, event := false, reaped := false, rxHigh := false,
+    cancelled := false, foreignTx := false }
+
+/-- FD_SETSIZE: `select()` handles descriptor numbers below it only (`ValueError: filedescriptor out of range in select()`) -/
+def fdSetSize : Nat := 1024
 
 def Buf.isEmpty : Buf → Bool
   | .empty => true
   | _ => false
 
+/-- no process holds the write end of the pipe any more: the reader sees EOF -/
+def St.noWriter (s : St) : Bool := !s.parentTx && !s.childTx && !s.foreignTx
+
 /-- `rx.poll()` / the selector reports the fd readable: data, or EOF (no write end left) -/
-def St.readable (s : St) : Bool := !s.buf.isEmpty || (!s.parentTx && !s.childTx)
+def St.readable (s : St) : Bool := !s.buf.isEmpty || s.noWriter
 
 def St.final (s : St) : Bool := s.out.isSome
 
@@ -134,14 +206,15 @@ def St.released (s : St) : Bool :=
 /-- effect of a parent step on the shared tables -/
 inductive Eff where
   | none | allocPipe | freeTx | addReader | removeReader | freeRx
+  | start      -- fork: the child gets a copy of every write end that is open in the parent at this moment
 deriving DecidableEq, Repr
 
 /-- raise `e` at an instruction whose handlers are `i.onEof` / `i.onErr` -/
 def raiseAt (i : Instr) (e : Exc) (s : St) : St :=
-  let tgt := match e with | .eof => i.onEof | .err => i.onErr
+  let tgt := match e with | .eof => i.onEof | .err => i.onErr | .cancel => i.onCancel
   match tgt with
   | some pc => { s with pc := pc, exc := some e, parked := false }
-  | none => { s with out := some (match e with | .eof => .raisedEof | .err => .raisedErr), exc := some e, parked := false }
+  | none => { s with out := some (match e with | .eof => .raisedEof | .err => .raisedErr | .cancel => .cancelled), exc := some e, parked := false }
 
 def St.adv (s : St) : St := { s with pc := s.pc + 1 }
 
@@ -156,7 +229,7 @@ def parentStep (P : List Instr) (s : St) : Option (St × Eff) :=
                else some ({ s.adv with rxOpen := true, parentTx := true }, .allocPipe)
     | .start =>
         if s.cpc != .notStarted then some (raiseAt i .err s, .none)      -- "cannot start a process twice"
-        else some ({ s.adv with cpc := .running, childTx := s.parentTx }, .none)   -- fork copies the write end if it is open
+        else some ({ s.adv with cpc := .running, childTx := s.parentTx }, .start)  -- fork copies the write end if it is open
     | .closeTx => if s.parentTx then some ({ s.adv with parentTx := false }, .freeTx) else some (s.adv, .none)
     | .addReader => if s.rxOpen then some ({ s.adv with reader := true }, .addReader) else some (raiseAt i .err s, .none)
     | .pollWait =>
@@ -164,6 +237,15 @@ def parentStep (P : List Instr) (s : St) : Option (St × Eff) :=
         else if s.parked then (if s.event then some ({ s.adv with parked := false }, .none) else none)
         else if s.readable then some (s.adv, .none)
         else if s.event then some (s.adv, .none)                  -- `event.wait()` returns at once when the event is set
+        else some ({ s with parked := true }, .none)
+    | .selectWait =>
+        -- `if not select.select([rx], [], [], 0)[0]: await event.wait()`: as `pollWait`, except that `select()` refuses a descriptor
+        -- number ≥ FD_SETSIZE with a ValueError (raised where the readiness test stands; a coroutine resumed from the wait does not test again)
+        if !s.rxOpen then some (raiseAt i .err s, .none)
+        else if s.parked then (if s.event then some ({ s.adv with parked := false }, .none) else none)
+        else if s.rxHigh then some (raiseAt i .err s, .none)
+        else if s.readable then some (s.adv, .none)
+        else if s.event then some (s.adv, .none)
         else some ({ s with parked := true }, .none)
     | .wait =>
         if s.event then some ({ s.adv with parked := false }, .none)
@@ -174,15 +256,19 @@ def parentStep (P : List Instr) (s : St) : Option (St × Eff) :=
     | .recv =>
         if !s.rxOpen then some (raiseAt i .err s, .none) else
         match s.buf with
-        | .full e => some ({ s.adv with buf := .empty, res := if e then .err else .ok }, .none)
-        | .partialMsg e =>
+        | .full e o => some ({ s.adv with buf := .empty, res := if e then .err o else .ok o }, .none)   -- `recv` copies what is in the pipe
+        | .partialMsg e o =>
             if s.cpc == .sending then     -- rendezvous: the parent drains while the child writes the rest
-              some ({ s.adv with buf := .empty, res := if e then .err else .ok, cpc := .sent }, .none)
-            else if !s.parentTx && !s.childTx then some (raiseAt i .err s, .none)   -- "got end of file during message"
+              some ({ s.adv with buf := .empty, res := if e then .err o else .ok o, cpc := .sent }, .none)
+            else if s.noWriter then some (raiseAt i .err s, .none)   -- "got end of file during message"
             else none
-        | .empty => if !s.parentTx && !s.childTx then some (raiseAt i .eof s, .none) else none   -- blocks synchronously
+        | .empty => if s.noWriter then some (raiseAt i .eof s, .none) else none   -- blocks synchronously
     | .setChildProcessError => some ({ s.adv with res := .cpe }, .none)
     | .setForeign => some ({ s.adv with res := .foreign }, .none)
+    | .terminate =>
+        -- SIGTERM / SIGKILL: the child ends now, whatever it was doing (its copy of the write end goes with it)
+        if s.cpc == .notStarted then some (raiseAt i .err s, .none)
+        else some ({ s.adv with cpc := .exited, childTx := false }, .none)
     | .join =>
         if s.cpc == .notStarted then some (raiseAt i .err s, .none)      -- "can only join a started process"
         else if s.cpc == .exited then some ({ s.adv with reaped := true }, .none)
@@ -195,16 +281,27 @@ def parentStep (P : List Instr) (s : St) : Option (St × Eff) :=
     | .closeRx => if s.rxOpen then some ({ s.adv with rxOpen := false }, .freeRx) else some (s.adv, .none)
     | .raiseIfError =>
         match s.res with
-        | .err => some ({ s with out := some .raisedCallee }, .none)
+        | .err o => some ({ s with out := some (if o == .own then .raisedCallee else .raisedErr) }, .none)   -- raises the object the message carried
         | .cpe => some ({ s with out := some .raisedCPE }, .none)
         | _ => some (s.adv, .none)
-    | .ret => some ({ s with out := some (if s.res == .ok then .retOk else .retForeign) }, .none)
+    | .ret => some ({ s with out := some (if s.res == .ok .own then .retOk else .retForeign) }, .none)   -- returns whatever `result` holds
     | .caught => some ({ s.adv with exc := none }, .none)
     | .jump t => some ({ s with pc := t }, .none)
     | .reraise =>
         match s.exc with
         | some e => some (raiseAt i e s, .none)
         | none => some (s.adv, .none)
+
+/-! ## environment: the awaiting task is cancelled -/
+
+/-- `task.cancel()`, `asyncio.wait_for(.., timeout)` running out, a TaskGroup that is torn down: asyncio raises CancelledError inside the
+    coroutine at the `await` it is suspended in.  Enabled in every parked state — also when the result has arrived in the meantime and
+    the event is set (the task has not been resumed yet): the cancellation wins.  The code between two awaits is not interruptible. -/
+def cancelStep (P : List Instr) (s : St) : Option St :=
+  if s.out.isSome || !s.parked then none else
+  match P[s.pc]? with
+  | none => none
+  | some i => some (raiseAt i .cancel { s with cancelled := true })
 
 /-! ## child -/
 
@@ -216,9 +313,10 @@ def childStep (b : Beh) (big : Bool) (s : St) : Option St :=
       if !s.childTx then some { s with cpc := .exited }         -- no usable write end: `send` fails, the child ends
       else match b with
         | .die => some { s with cpc := .exited, childTx := false }
-        | .sendOk => if big then some { s with cpc := .sending, buf := .partialMsg false } else some { s with cpc := .sent, buf := .full false }
-        | .sendErr => if big then some { s with cpc := .sending, buf := .partialMsg true } else some { s with cpc := .sent, buf := .full true }
-        | .dieMidSend => some { s with cpc := .sending, buf := .partialMsg false }
+        -- `_inner` sends the object the callee produced (`tx.send(res)` / `tx.send(SubprocessError(ex=ex))`: read off its try statement)
+        | .sendOk => if big then some { s with cpc := .sending, buf := .partialMsg false .own } else some { s with cpc := .sent, buf := .full false .own }
+        | .sendErr => if big then some { s with cpc := .sending, buf := .partialMsg true .own } else some { s with cpc := .sent, buf := .full true .own }
+        | .dieMidSend => some { s with cpc := .sending, buf := .partialMsg false .own }
   | .sending =>
       match b with
       | .dieMidSend => some { s with cpc := .exited, childTx := false }   -- killed while blocked in write
@@ -232,21 +330,51 @@ def childStep (b : Beh) (big : Bool) (s : St) : Option St :=
 def loopStep (s : St) : Option St :=
   if s.reader && s.rxOpen && s.readable && !s.event then some { s with event := true } else none
 
-/-- all successors of a local state -/
+/-- the parent's successors: the step that makes the pipe has two — the environment decides whether the read end's descriptor number
+    lies below FD_SETSIZE or not (`parentStep` itself leaves `rxHigh` as it is; the global machine sets it from the number chosen) -/
+def parentNext (P : List Instr) (s : St) : List St :=
+  match parentStep P s with
+  | none => []
+  | some (t, eff) => if eff == .allocPipe then [{ t with rxHigh := false }, { t with rxHigh := true }] else [t]
+
+/-- the successors of a local state the system reaches by itself (parent, child, event loop) -/
+def sysNext (P : List Instr) (b : Beh) (big : Bool) (s : St) : List St :=
+  parentNext P s ++ (childStep b big s).toList ++ (loopStep s).toList
+
+/-- … and what the environment can do to it: cancel the awaiting task -/
 def next (P : List Instr) (b : Beh) (big : Bool) (s : St) : List St :=
-  ((parentStep P s).map (·.1)).toList ++ (childStep b big s).toList ++ (loopStep s).toList
+  sysNext P b big s ++ (cancelStep P s).toList
 
 /-! ## reachable set of the local machine (finite; computed, then proved closed) -/
 
-/-- worklist closure with fuel: every state is expanded once -/
-def bfs (P : List Instr) (b : Beh) (big : Bool) : Nat → List St → List St → List St
+/-- a set of states kept in buckets, one per program counter: a membership test looks at the states with the same pc only (for the
+    kernel, which evaluates the checks below, comparing two 16-field records is expensive).  Nothing rests on the bucketing: the set is
+    the concatenation of the buckets. -/
+abbrev Buckets := List (List St)
+
+def memB (R : Buckets) (t : St) : Bool := match R[t.pc]? with | some bk => bk.any (fun p => p == t) | none => false
+
+def insB (R : Buckets) (t : St) : Buckets := R.modify t.pc (fun bk => t :: bk)
+
+/-- worklist closure with fuel over a successor function: every state is expanded once -/
+def bfsB (nx : St → List St) : Nat → List St → Buckets → Buckets
   | 0, _, acc => acc
   | _ + 1, [], acc => acc
   | n + 1, s :: todo, acc =>
-    let new := (next P b big s).foldl (fun nw t => if acc.contains t || nw.contains t then nw else nw ++ [t]) []
-    bfs P b big n (todo ++ new) (acc ++ new)
+    let r := (nx s).foldl (fun (st : List St × Buckets) t => if memB st.2 t then st else (st.1 ++ [t], insB st.2 t)) ([], acc)
+    bfsB nx n (todo ++ r.1) r.2
 
-def reach (P : List Instr) (b : Beh) (big : Bool) : List St := bfs P b big 256 [St.init] [St.init]
+/-- the states an invocation can reach (steps of its parent, its child, the event loop; cancellations by the environment) -/
+def reachB (P : List Instr) (b : Beh) (big : Bool) : Buckets :=
+  bfsB (next P b big) 1024 [St.init] (insB (List.replicate (P.length + 1) []) St.init)
+
+def reach (P : List Instr) (b : Beh) (big : Bool) : List St := (reachB P b big).flatten
+
+/-- … without cancellations by the environment (used by the witnesses about protocols that predate the handling of cancellation) -/
+def reachSysB (P : List Instr) (b : Beh) (big : Bool) : Buckets :=
+  bfsB (sysNext P b big) 1024 [St.init] (insB (List.replicate (P.length + 1) []) St.init)
+
+def reachSys (P : List Instr) (b : Beh) (big : Bool) : List St := (reachSysB P b big).flatten
 
 /-- progress measure: every step strictly decreases it on the reachable set (checked per configuration) -/
 def rank (R : List Nat) (s : St) : Nat :=
@@ -271,6 +399,7 @@ structure Loc where
   st : St
   rx : Option Nat      -- fd number of the read end while open
   tx : Option Nat      -- fd number of the parent's write end while open
+  heirs : List Nat     -- invocations whose (living) child holds a copy of this invocation's write end
 deriving DecidableEq, Repr
 
 /-- selector map entry: `fd ↦ (callback = event.set of invocation owner)`; `live` = the kernel (epoll) still watches it -/
@@ -285,7 +414,7 @@ structure G where
   tbl : List Entry
 deriving DecidableEq, Repr
 
-def Loc.fresh (c : Callee) (big : Bool) : Loc := { callee := c, big := big, st := St.init, rx := none, tx := none }
+def Loc.fresh (c : Callee) (big : Bool) : Loc := { callee := c, big := big, st := St.init, rx := none, tx := none, heirs := [] }
 
 def G.init (cs : List (Callee × Bool)) : G := { invs := cs.map (fun c => Loc.fresh c.1 c.2), tbl := [] }
 
@@ -308,6 +437,11 @@ def lowestFree (used : List Nat) : Nat :=
   | some n => n
   | none => maxOf used + 1
 
+/-- the kernel's rule in a process that holds `base` other descriptors open (numbers 0 … base-1: standard streams, files, sockets,
+    the event loop's own descriptors, …): the lowest number ≥ base that no invocation uses -/
+def allocFd (base : Nat) (used : List Nat) : Nat :=
+  base + lowestFree ((used.filter (fun u => base ≤ u)).map (fun u => u - base))
+
 def tblErase (fd : Nat) (t : List Entry) : List Entry := t.filter (fun e => e.fd != fd)
 
 /-- `add_reader`: a new fd is registered with the kernel; an fd that still has a map entry only gets the new callback -/
@@ -320,14 +454,42 @@ def tblPut (fd owner : Nat) (t : List Entry) : List Entry :=
 def tblMarkDead (fd : Nat) (t : List Entry) : List Entry :=
   t.map (fun e => if e.fd == fd then { e with live := false } else e)
 
-def applyEff (i : Nat) (l : Loc) (t : St) (eff : Eff) (g : G) : G :=
+/-! ### fork inheritance of OTHER invocations' write ends
+
+`fork()` copies every descriptor of the parent.  If the coroutine of invocation j can be suspended between `Pipe()` and `tx.close()`,
+another invocation i can fork its child in that window: that child holds a copy of j's write end for as long as it lives, and j sees
+no EOF when its own child dies.  Whether such a window exists is read off the source (`awaitsWhileWriteEndOpen`); it does not
+(the three statements follow each other without an `await`), so `inheritOthers = false` and the functions below are the identity —
+the theorems about N invocations rest on that fact (they do not re-prove when the list is not empty). -/
+
+def inheritOthers : Bool := !PedVerif.Gen.SubprocModule.awaitsWhileWriteEndOpen.isEmpty
+
+/-- the child of `i` is forked: it inherits the write end of every OTHER invocation that has one open in the parent right now -/
+def applyStart (inh : Bool) (i : Nat) (g : G) : G :=
+  if inh then
+    { g with invs := g.invs.mapIdx (fun j l =>
+        if j != i && l.st.parentTx then { l with st := { l.st with foreignTx := true }, heirs := i :: l.heirs } else l) }
+  else g
+
+/-- the child of `i` has ended: the copies it held are gone -/
+def releaseHeir (inh : Bool) (i : Nat) (g : G) : G :=
+  if inh then
+    { g with invs := g.invs.map (fun l =>
+        if l.heirs.contains i then { l with st := { l.st with foreignTx := !(l.heirs.erase i).isEmpty }, heirs := l.heirs.erase i } else l) }
+  else g
+
+/-- after a step of invocation `i` from local state `s` to `t`: if its child ended with this step, release what it had inherited -/
+def postExit (inh : Bool) (i : Nat) (s t : St) (g : G) : G :=
+  if t.cpc == .exited && s.cpc != .exited then releaseHeir inh i g else g
+
+/-- `r`, `w`: the descriptor numbers `Pipe()` gets if this step makes the pipe (chosen by the environment) -/
+def applyEffI (inh : Bool) (r w : Nat) (i : Nat) (l : Loc) (t : St) (eff : Eff) (g : G) : G :=
+  postExit inh i l.st t <|
   match eff with
+  | .start => applyStart inh i { g with invs := g.invs.set i { l with st := t } }
   | .none => { g with invs := g.invs.set i { l with st := t } }
   | .allocPipe =>
-      let used := usedFds g.invs
-      let r := lowestFree used
-      let w := lowestFree (r :: used)
-      { g with invs := g.invs.set i { l with st := t, rx := some r, tx := some w } }
+      { g with invs := g.invs.set i { l with st := { t with rxHigh := decide (fdSetSize ≤ r) }, rx := some r, tx := some w } }
   | .freeTx => { g with invs := g.invs.set i { l with st := t, tx := none } }
   | .addReader =>
       { invs := g.invs.set i { l with st := t },
@@ -339,21 +501,46 @@ def applyEff (i : Nat) (l : Loc) (t : St) (eff : Eff) (g : G) : G :=
       { invs := g.invs.set i { l with st := t, rx := none },
         tbl := match l.rx with | some fd => tblMarkDead fd g.tbl | none => g.tbl }
 
-/-- parent of invocation `i` takes a step -/
-def gParent (P : List Instr) (i : Nat) (g : G) : Option G :=
+def applyEff (r w : Nat) (i : Nat) (l : Loc) (t : St) (eff : Eff) (g : G) : G := applyEffI inheritOthers r w i l t eff g
+
+/-- parent of invocation `i` takes a step; a new pipe gets the descriptor numbers `r` (read end) and `w` (write end) -/
+def gParentAtI (inh : Bool) (P : List Instr) (i r w : Nat) (g : G) : Option G :=
   match g.invs[i]? with
   | none => none
   | some l =>
     match parentStep P l.st with
     | none => none
-    | some (t, eff) => some (applyEff i l t eff g)
+    | some (t, eff) => some (applyEffI inh r w i l t eff g)
+
+def gParentAt (P : List Instr) (i r w : Nat) (g : G) : Option G := gParentAtI inheritOthers P i r w g
+
+/-- … with the kernel's choice in a process that holds `base` other descriptors: the lowest free numbers from `base` on -/
+def gParentBI (inh : Bool) (P : List Instr) (base i : Nat) (g : G) : Option G :=
+  gParentAtI inh P i (allocFd base (usedFds g.invs)) (allocFd base (allocFd base (usedFds g.invs) :: usedFds g.invs)) g
+
+def gParentB (P : List Instr) (base i : Nat) (g : G) : Option G :=
+  gParentAt P i (allocFd base (usedFds g.invs)) (allocFd base (allocFd base (usedFds g.invs) :: usedFds g.invs)) g
+
+/-- … in a process that holds nothing else -/
+def gParent (P : List Instr) (i : Nat) (g : G) : Option G := gParentB P 0 i g
 
 /-- child of invocation `i` takes a step -/
-def gChild (i : Nat) (g : G) : Option G :=
+def gChildI (inh : Bool) (i : Nat) (g : G) : Option G :=
   match g.invs[i]? with
   | none => none
   | some l =>
     match childStep (childBeh l.callee) l.big l.st with
+    | none => none
+    | some t => some (postExit inh i l.st t { g with invs := g.invs.set i { l with st := t } })
+
+def gChild (i : Nat) (g : G) : Option G := gChildI inheritOthers i g
+
+/-- the environment cancels the task that awaits invocation `i` -/
+def gCancel (P : List Instr) (i : Nat) (g : G) : Option G :=
+  match g.invs[i]? with
+  | none => none
+  | some l =>
+    match cancelStep P l.st with
     | none => none
     | some t => some { g with invs := g.invs.set i { l with st := t } }
 
@@ -372,11 +559,26 @@ def gCallback (k : Nat) (g : G) : Option G :=
       | none => none
       | some o => if o.st.event then none else some { g with invs := g.invs.set e.owner { o with st := { o.st with event := true } } }
 
+/-- a prescribed sequence of moves (parent i / child i), with fork inheritance of other invocations' write ends switched on or off:
+    used by the witness that shows what the fact `awaitsWhileWriteEndOpen = []` excludes -/
+inductive Mv where
+  | p (i : Nat) | c (i : Nat)
+deriving Repr
+
+def playI (inh : Bool) (P : List Instr) : List Mv → G → Option G
+  | [], g => some g
+  | .p i :: ms, g => (gParentBI inh P 0 i g).bind (playI inh P ms)
+  | .c i :: ms, g => (gChildI inh i g).bind (playI inh P ms)
+
 /-- one step of the global system, labelled by the component that moves -/
 inductive GStep (P : List Instr) : G → G → Prop where
-  | parent (i : Nat) {g g' : G} : gParent P i g = some g' → GStep P g g'
+  /-- a step of parent `i`; if it makes the pipe, the pipe gets ANY two descriptor numbers that are not in use — whatever else the
+      process holds open, however high that pushes the numbers -/
+  | parent (i r w : Nat) {g g' : G} : r ∉ usedFds g.invs → w ∉ r :: usedFds g.invs → gParentAt P i r w g = some g' → GStep P g g'
   | child (i : Nat) {g g' : G} : gChild i g = some g' → GStep P g g'
   | callback (k : Nat) {g g' : G} : gCallback k g = some g' → GStep P g g'
+  /-- the environment cancels the awaiting task of invocation `i` (possible whenever its coroutine is suspended at an `await`) -/
+  | cancel (i : Nat) {g g' : G} : gCancel P i g = some g' → GStep P g g'
 
 inductive GRun (P : List Instr) : G → G → Prop where
   | refl (g : G) : GRun P g g
@@ -387,7 +589,9 @@ inductive GRunN (P : List Instr) : Nat → G → G → Prop where
   | refl (g : G) : GRunN P 0 g g
   | step {n : Nat} {g g' g'' : G} : GRunN P n g g' → GStep P g' g'' → GRunN P (n + 1) g g''
 
-/-- all successors of a global state (executable form of `GStep`) -/
+/-- the successors of a global state the SYSTEM can take by itself — parent, child and callback steps, with the kernel's choice of
+    descriptor numbers (executable; `GStep` has a parent step iff this list has one: which numbers a pipe gets does not decide whether
+    the step is enabled).  Cancellations by the environment are not listed. -/
 def gsucc (P : List Instr) (g : G) : List G :=
   (List.range g.invs.length).filterMap (fun i => gParent P i g) ++
   (List.range g.invs.length).filterMap (fun i => gChild i g) ++
@@ -405,12 +609,20 @@ structure Sched where
   /-- the callee returns / raises / dies only after these invocations have finished (it waits for an event that the caller sets
       then): "arbitrary relative durations" includes a callee that outlives another invocation *by design* -/
   gate : List Nat
+  /-- the surrounding program holds this many other descriptors open when the invocation is made (a server with hundreds of
+      connections, a parent that opened many files): the pipe gets the lowest free numbers above them -/
+  held : Nat
+  /-- `some ks`: the environment cancels the task that awaits this invocation (task.cancel(), wait_for timeout) once the coroutine is
+      suspended and the invocations `ks` have finished -/
+  cancelAfter : Option (List Nat)
 deriving Repr
 
-def runParent (P : List Instr) (i : Nat) : Nat → G → G
+def heldOf (sc : List Sched) (i : Nat) : Nat := match sc[i]? with | some s => s.held | none => 0
+
+def runParent (P : List Instr) (base i : Nat) : Nat → G → G
   | 0, g => g
-  | n + 1, g => match gParent P i g with
-    | some g' => runParent P i n g'
+  | n + 1, g => match gParentB P base i g with
+    | some g' => runParent P base i n g'
     | none => g
 
 def runChild (i : Nat) : Nat → G → G
@@ -434,7 +646,7 @@ def parentPhase (P : List Instr) (sc : List Sched) : List Nat → G → G
   | [], g => g
   | i :: is, g =>
     if frozen P g then g
-    else parentPhase P sc is (if startable g sc i then runParent P i 64 g else g)
+    else parentPhase P sc is (if startable g sc i then runParent P (heldOf sc i) i 64 g else g)
 
 def callbackPhase : Nat → G → G
   | 0, g => g
@@ -472,11 +684,22 @@ def advance (g : G) (rem : List Nat) (d : Nat) : List Nat :=
     | some l => if l.st.cpc == .running then rem[i]?.getD 0 - d else rem[i]?.getD 0
     | none => 0)
 
+/-- the environment is about to cancel invocation `i`: designated, suspended, and everything it waits for has finished -/
+def cancelReady (P : List Instr) (sc : List Sched) (g : G) (i : Nat) : Bool :=
+  match sc[i]? with
+  | some s => (match s.cancelAfter with
+      | some ks => ks.all (isFinalAt g) && (gCancel P i g).isSome
+      | none => false)
+  | none => false
+
 def schedule (P : List Instr) (sc : List Sched) : Nat → List Nat → G → G
   | 0, _, g => g
   | n + 1, rem, g =>
     if loopPhase P sc g != g then schedule P sc n rem (loopPhase P sc g)
-    else match (List.range g.invs.length).find? (childReady sc g rem) with
+    else match (List.range g.invs.length).find? (cancelReady P sc g) with
+    | some i => schedule P sc n rem ((gCancel P i g).getD g)
+    | none =>
+    match (List.range g.invs.length).find? (childReady sc g rem) with
       | some i => schedule P sc n rem (runChild i 8 g)
       | none =>
         match minRunning g rem with
@@ -495,7 +718,10 @@ def scheduleH (hold : List Nat) (P : List Instr) (sc : List Sched) : Nat → Lis
   | 0, _, g => g
   | n + 1, rem, g =>
     if loopPhase P sc g != g then scheduleH hold P sc n rem (loopPhase P sc g)
-    else match (List.range g.invs.length).find? (fun i => childReady sc g rem i && !lingering hold g i) with
+    else match (List.range g.invs.length).find? (cancelReady P sc g) with
+    | some i => scheduleH hold P sc n rem ((gCancel P i g).getD g)
+    | none =>
+    match (List.range g.invs.length).find? (fun i => childReady sc g rem i && !lingering hold g i) with
       | some i => scheduleH hold P sc n rem (runChild i (if hold.contains i then 1 else 8) g)   -- a held child stops after its send
       | none =>
         match minRunning g rem with
